@@ -29,7 +29,7 @@ BUDGET = {
 }
 REQUIRED_PROBES = ["populated", "caller_value_kept", "explicit_empty_on_optional_kept", "empty_on_plain_populated",
                    "populated_on_retry_attempt", "concurrent_callers", "kwargs_form", "async_populated",
-                   "two_fields", "decoy_untouched", "non_auto_method", "rest_call", "lro_method", "host_reseeds_global_prng"]
+                   "two_fields", "decoy_untouched", "non_auto_method", "rest_call", "lro_method", "host_reseeds_global_prng", "caller_cancelled"]
 ASSUMPTIONS = ["that all attempts of one invocation carry the same id is recorded (probe same_id_across_attempts) "
                "but not judged: the property does not state it",
                "re-submitting the very same request object is not judged (the library fills the caller's object in "
@@ -96,6 +96,9 @@ def gen_scenarios(spec, rng, n):
               "entropy_seed": rng.randrange(2**32)}
         if len(sc["actors"]) > 1 and rng.random() < 0.4:
             sc["clients"] = "per_actor"        # several clients in one process: ids must still be fresh
+        if client == "async" and len(sc["actors"]) > 1 and rng.random() < 0.2:
+            # fault: one caller's task is cancelled at an arbitrary instant (possibly between population and send)
+            sc["cancels"] = [{"actor": rng.randrange(len(sc["actors"])), "at": rng.choice([0.0, 0.001, 0.004, 0.02, 0.1])}]
         out.append(sc)
     return out
 
@@ -196,6 +199,8 @@ def judge(spec, scenario, history):
         probes["concurrent_callers"] = 1
     if any(e["k"] == "reseed" for e in history):
         probes["host_reseeds_global_prng"] = 1
+    if any(e["k"] == "actor_cancelled" for e in history):
+        probes["caller_cancelled"] = 1
     # every invocation must reach the wire (or fail with the injected status): an exception raised by the
     # population code itself (before anything is sent) is a violation, not a skipped run
     for oid, op in ops.items():
